@@ -539,6 +539,41 @@ fn specs(quick: bool) -> Vec<ConvSpec> {
             });
         }
     }
+    // two writer programs on one connection (a text one, then a binary one behind a PREPARE), so that
+    // every fault also lands behind an earlier exchange of every kind; and the same with the shim
+    // failing in the second program's callback
+    for (ls, mname) in [(false, "whole reads"), (true, "lock-step client")] {
+        for (i, (n1, p1)) in programs.iter().enumerate() {
+            for (j, (n2, p2)) in programs.iter().enumerate() {
+                if quick && ls && (i + j) % 3 != 0 {
+                    continue;
+                }
+                for fail in [None, Some(2usize)] {
+                    if fail.is_some() && (ls || j != 0) {
+                        continue;
+                    }
+                    v.push(ConvSpec {
+                        label: format!("query {} + prepare + execute {}{} + init db + ping ({})", n1, n2, if fail.is_some() { " (the shim fails instead)" } else { "" }, mname),
+                        cmds: vec![
+                            q(b"first"),
+                            ClientCmd::new(with_byte(COM_STMT_PREPARE, b"id=1 p=0")),
+                            ClientCmd::new(cmd_execute(1, 0, 1, &[])),
+                            ClientCmd::new(with_byte(COM_INIT_DB, b"db")),
+                            ping(),
+                        ],
+                        progs: vec![Arc::new(p1.clone()), Arc::new(p2.clone())],
+                        fail_at: fail,
+                        auth_reject: false,
+                        uniform_read: usize::MAX,
+                        write_cap: usize::MAX,
+                        cuts: vec![],
+                        lockstep: ls,
+                        sparse: false,
+                    });
+                }
+            }
+        }
+    }
     // multi-packet requests: end of stream and faults around every packet header
     for size in if quick { vec![MAXP + 9] } else { vec![MAXP - 1, MAXP, MAXP + 9, 2 * MAXP, 2 * MAXP + 9] } {
         let mut text = vec![b'w'; size - 1];
